@@ -109,6 +109,9 @@ func (in *Interp) nativeMethod(recv Iface, m *types.Func) *NativeFunc {
 	if nf := in.crc32Method(recv, m.Name()); nf != nil {
 		return nf
 	}
+	if nf := in.rtypeMethod(recv, m.Name()); nf != nil {
+		return nf
+	}
 	return nil
 }
 
